@@ -200,6 +200,59 @@ def build(E):
 
     spec.targets = [f"{PX}._handle_async", f"{PX}.handle", f"{PX}.__init__"]
     spec.keep = lambda name: "[C18]" not in name
+
+    # ---- configuration: every proxy location gets its OWN handler, built from that location's settings ----------------------
+    # ServerConfig.get_location_router.create_handler (nested function) under contract: for a proxy location the result is a
+    # ProxyHandler constructed in this very call with upstream / prefix / strip_prefix / timeout of THAT location.
+    CFG = "nauyaca.server.config:ServerConfig"
+    LOC = "nauyaca.server.location:LocationConfig"
+    from pyvc.values import VClass, VReal
+
+    def ch_closure(ctx):
+        cfg = ctx.alloc(CFG, {"max_file_size": VInt(z3.Int("cfg.max_file_size")), "__constructed__": True})
+        return {"self": cfg, "enable_directory_listing": VBool(z3.Bool("listing_default")),
+                "ProxyHandler": VClass(PX), "StaticFileHandler": VClass("nauyaca.server.handler:StaticFileHandler"),
+                "RequestHandler": VClass("nauyaca.server.handler:RequestHandler")}
+
+    def ch_args(ctx):
+        ht = E.class_static_attr(ctx, VClass("nauyaca.server.location:HandlerType"), "PROXY")
+        loc = ctx.alloc(LOC, {"prefix": VStr(z3.String("loc.prefix")), "handler_type": ht, "document_root": NONE, "enable_directory_listing": VBool(False),
+                              "default_indices": ctx.alloc_list([]), "max_file_size": NONE, "upstream": VStr(z3.String("loc.upstream")),
+                              "strip_prefix": VBool(z3.Bool("loc.strip_prefix")), "timeout": VReal(z3.Real("loc.timeout")), "__constructed__": True})
+        ctx.ghost["px_ctor"] = []
+        return [loc], {}
+
+    def px_init_log(ctx, old, a, outcome):
+        ctx.ghost.setdefault("px_ctor", []).append((a[0], a[1:]))
+        return None
+    px_init_caller = Contract(f"{PX}.__init__", ensures=[("ghost log", px_init_log)], result=T.none, raises=["ValueError"])
+
+    def ch_post(ctx, old, a, outcome):
+        if outcome[0] != "return":
+            return None            # a non-gemini upstream makes ProxyHandler(...) raise ValueError: no handler, no forwarding
+        r = ctx.force(outcome[1])
+        log = ctx.ghost.get("px_ctor", [])
+        if len(log) != 1 or not (isinstance(r, VObj) and r.oid == log[0][0].oid):
+            return z3.BoolVal(False)
+        up, pre, strip, tmo = [ctx.force(x) for x in log[0][1][:4]]
+        return z3.And(up.z == z3.String("loc.upstream"), pre.z == z3.String("loc.prefix"), strip.z == z3.Bool("loc.strip_prefix"),
+                      (tmo.z == z3.Real("loc.timeout")) if hasattr(tmo, "z") else z3.BoolVal(False))
+    c_ch = Contract(f"{CFG}.get_location_router", make_args=ch_args,
+                    ensures=[("[C17] a proxy location is served by a ProxyHandler constructed for it: upstream, prefix, strip_prefix and timeout are that location's own", ch_post)])
+    c_ch.closure = ch_closure
+    orig_ch_args = c_ch.make_args
+
+    def ch_args2(ctx):
+        E.caller_contracts[f"{PX}.__init__"] = px_init_caller      # only while this target is explored
+        return orig_ch_args(ctx)
+    c_ch.make_args = ch_args2
+    for q in (f"{PX}._handle_async", f"{PX}.handle", f"{PX}.__init__"):
+        c0 = E.contracts[q]
+        c0.make_args = (lambda ctx, _o=c0.make_args: (E.caller_contracts.pop(f"{PX}.__init__", None), _o(ctx))[1])
+    if not hasattr(spec, "event_contracts"):
+        spec.event_contracts = {}
+    spec.event_contracts[f"{CFG}.get_location_router.create_handler"] = c_ch
+    spec.targets.append((f"{CFG}.get_location_router", "create_handler"))
     if getattr(E, "_c17_with_session", True) and not getattr(E, "_c17_nested", False):
         # the URL computed by the proxy reaches the upstream as the request line only if the client sends it unaltered:
         # GeminiClient._get_single (real __init__, real protocol methods) with the clause '[C17] request line == normalised URL';
@@ -221,6 +274,8 @@ def build(E):
                 return "[C18]" not in name
             if name.startswith(CL):
                 return _s(name) if _s else True
+            if name.startswith("nauyaca.server.config:"):
+                return True
             return "[C11]" in name          # connection_made: exactly the request line is written
         spec.keep = keep
     spec.trusted += ["E7: host and port of a URL are functions of its authority (the text between '://' and the first of / ? #)",
